@@ -78,6 +78,9 @@ def gen_history(seed, idx, method, info, tier):
     else:
         kind = str(rng.choice(["real", "grid", "intgrid", "counts"], p=[0.3, 0.2, 0.3, 0.2]))
     A = gen_matrix(rng, T, n, kind)
+    if rng.random() < 0.12:                  # a duplicated sensor: bit-identical columns, exact ties between candidates
+        A[:, 1] = A[:, 0]
+        kind += "+duplicated_column"
     params = dict(method=method, information=info, max_lag=L, alpha_forward=float(rng.choice([0.05, 0.1, 0.2])),
                   alpha_backward=float(rng.choice([0.05, 0.1])), k_means=int(rng.integers(2, 5)), n_shuffles=ns,
                   metric=str(rng.choice(["euclidean", "chebyshev"])) if info == "knn" else "euclidean", bandwidth="silverman")
@@ -92,12 +95,19 @@ def gen_history(seed, idx, method, info, tier):
             reqs.append({"data": B, "params": params})
         elif v == 1:
             T2 = T + int(rng.integers(-3, 4))
-            reqs.append({"data": gen_matrix(rng, T2, n if slow else int(rng.integers(2, 4)), kind), "params": params})
+            reqs.append({"data": gen_matrix(rng, T2, n if slow else int(rng.integers(2, 4)), kind.split("+")[0]), "params": params})
         else:
             p2 = dict(params)
             which = str(rng.choice(["n_shuffles", "alpha_backward", "k_means"]))
             p2[which] = {"n_shuffles": ns + 3, "alpha_backward": 0.2, "k_means": params["k_means"] + 1}[which]
             reqs.append({"data": A, "params": p2})
+    # the requests of one history are pairwise different in (data, parameters)
+    uniq = []
+    for r in reqs:
+        if not any(r["params"] == u["params"] and r["data"].shape == u["data"].shape and np.array_equal(r["data"], u["data"])
+                   for u in uniq):
+            uniq.append(r)
+    reqs = uniq
     length = int(rng.integers(3, 7 if slow else 13))
     n_probe = 2 if slow else int(rng.integers(2, min(5, length) + 1))
     n_oth = min(length - n_probe, int(rng.integers(0, 2 if slow else 3)))
@@ -636,7 +646,7 @@ def run(chk):
                 "columns with string, permuted-default or integer labels; for integer-valued data also int64 ndarray C / F, lists of "
                 "ints, int DataFrame, mixed int/float DataFrame), calls on other requests (one entry changed, other shape, other "
                 "parameter), np.random.seed, random.seed, draws from both global generators, other package functions. Data: "
-                "full-precision reals, dyadic grid, integer grid, Poisson counts; T 28..60, n 2..3, max_lag 1..2, n_shuffles 15..50 "
+                "full-precision reals, dyadic grid, integer grid, Poisson counts, 12% with a duplicated column; T 28..60, n 2..3, max_lag 1..2, n_shuffles 15..50 "
                 "(smallest sizes for the slow Poisson / geometric-kNN selections). Predicate: same abstract request => bit-identical "
                 "canonical edge list AS THE REFERENCE ANSWER (same request answered once in a fresh process with no history, C-ordered "
                 "float array), nodes = labels, full global generator states unchanged across every call. Coq: check_history_case runs "
